@@ -3,7 +3,7 @@ import TenpyModel.C01.B2_Comb3
 C01 part B2 — part 4: all axes of the result together. If the result stores, per distinct target row, the fold of
 the `setBlock`s of the source blocks with that row (`GroupSpec`), then `r[ix idx] = a[idx]` (`spec_entry`).
 -/
-namespace TenpyModel.C01B2
+namespace TenpyModel.C01B2.Comb
 open TenpyModel.Core TenpyModel.C01B
 
 variable {α : Type}
@@ -189,4 +189,4 @@ theorem spec_entry (a : Arr α) (ha : W a) (specs : List AxS) (hv : ∀ s ∈ sp
     exact hex ⟨g, hg, heq⟩
 
 end zero
-end TenpyModel.C01B2
+end TenpyModel.C01B2.Comb
